@@ -8,7 +8,9 @@ from vcommon import IMPORTS, CHECK_FN
 RULE = ("random genomes with 1-3 coding features (forward/reverse, single/joined segments, overlapping, named and - in "
         "GFF - unnamed), rendered as GenBank or GFF3, every feature ending in a stop codon; alignments with substitutions, "
         "IUPAC codes, deletions and insertions relative to the reference; reference first/middle/last in the msa or taken "
-        "from the annotation; with and without --append-snps. Oracles written from the statement check every per-sequence "
+        "from the annotation; with and without --append-snps; a fifth of the cases have a polyprotein with its in-frame "
+        "peptides as separately named features and queries 25-40% diverged (more than a dozen records per sequence, several "
+        "per position). Oracles written from the statement check every per-sequence "
         "row of the implementation: mentioned positions = disjoint positions (with --append-snps), nuc: records name the "
         "symbols, aa: records = the codons whose query translation is unambiguous and differs. The Coq model of the caller "
         "is compared byte for byte. Non-trivial: the case has a reverse-strand or joined feature, or an insertion. "
@@ -23,7 +25,20 @@ def generate(ctx):
     n = 60 if ctx.tier == "quick" else 1000
     for cid in range(n):
         suffix = rng.choice(["gb", "gff"])
-        genome, feats, ref_row, rows = vcommon.random_setup(rng, allow_unnamed=(suffix == "gff"), mod3_segments=True)
+        if cid % 5 == 4:
+            # a polyprotein and its in-frame peptides (differently named features sharing every codon) and divergent queries:
+            # well over a dozen records per sequence, several of them at one and the same position
+            third = rng.choice([10, 12, 14])
+            genome = gen.rand_seq(rng, 6 * third + 6)
+            feats = [anno.Feature("poly", "+", [(4, 3 + 6 * third)], 1, True), anno.Feature("pepA", "+", [(4, 3 + 3 * third)], 1, True),
+                     anno.Feature("pepB", "+", [(4 + 3 * third, 3 + 6 * third)], 1, True)]
+            genome, feats = anno.patch_stops(rng, genome, feats)
+            if len(feats) != 3:
+                continue
+            ref_row, _ = anno.make_msa(rng, genome, 1, with_insertions=False)
+            rows = [gen.mutate(rng, genome, p_sub=rng.choice([0.25, 0.4]), p_amb=0.02, p_gap=0.0, p_lower=0.0).replace("?", "N") for _ in range(rng.randint(1, 3))]
+        else:
+            genome, feats, ref_row, rows = vcommon.random_setup(rng, allow_unnamed=(suffix == "gff"), mod3_segments=True)
         if not feats:
             continue
         mode = rng.choice(["first", "middle", "last", "anno"])
